@@ -158,6 +158,16 @@ def check(ctx, rep):
     rec = [r for r, c in ctx.raises_in(ev) if c == 'OUT_OF_MEMORY']
     ok = len(rec) == 1 and fl.knows(rec[0], 'self._is_parsing', True)
     rep.ob('recursion.self-call-raises', 'a function evaluated while already evaluating raises Out of memory', ok, '', ctx.where(ev))
+    # ... on every call: a test that sits in the loop over the arguments is skipped by a function without parameters
+    # (DEF FNA=FNA+1 then recurses until Python's own limit)
+    for r in rec:
+        loops, p_ = [], getattr(r, '_parent', None)
+        while p_ is not None and p_ is not ev:
+            if isinstance(p_, (ast.For, ast.While)):
+                loops.append(short(p_, 40))
+            p_ = getattr(p_, '_parent', None)
+        rep.ob('recursion.tested-on-every-call', 'the self-call test does not depend on the number of arguments', not loops,
+               'inside %s: a function without parameters never reaches it and recurses into RecursionError' % loops, ctx.where(r))
     if rec:
         first_touch = min([_pos(n) for n in saves] + [_pos(n) for n in binds] + [_pos(n) for n in flag_set])
         not_cleared = not any(_inside(rec[0], t.body) for t in flag_tries)
@@ -267,7 +277,20 @@ def variants(ctx):
         blk[i:i + 1] = tr.body + tr.finalbody
         return True
 
+    def guard_into_loop(fn):
+        for t in ast.walk(fn):
+            blk = getattr(t, 'body', None)
+            if isinstance(blk, list):
+                g = [x for x in blk if isinstance(x, ast.If) and norm(x.test) == 'self._is_parsing']
+                f = [x for x in blk if isinstance(x, ast.For) and 'conversions' in norm(x.iter)]
+                if g and f:
+                    blk.remove(g[0])
+                    f[0].body.append(g[0])
+                    return True
+        return False
+
     return [
+        Va('recursion-test-once-per-argument', 'break', UF, in_ev(guard_into_loop), expect='recursion.tested-on-every-call'),
         Va('finally-to-straight-line', 'break', UF, in_ev(unwrap_finally), expect='restore'),
         Va('restore-rebinds', 'break', UF,
            in_ev(lambda fn: mu.replace_expr(fn, mu.text_is('self._memory.scalars.view(name).copy_from(varsave[name])'),
